@@ -158,6 +158,17 @@ type State struct {
 	// matchAtNonWordBoundary is the same but for when word boundary is NOT satisfied.
 	matchAtNonWordBoundary bool
 
+	// eoiMatch memoizes DFA.checkEOIMatch for this state (0 = not computed,
+	// 1 = no match at end of input, 2 = match). The verdict depends only on the
+	// state's NFA states and isFromWord, and a State belongs to exactly one
+	// per-search DFACache, so the memo needs no synchronization. It keeps the
+	// end-of-input check allocation-free once the state is warm.
+	eoiMatch uint8
+
+	// wbMatch memoizes DFA.checkWordBoundaryMatch per class of the next byte
+	// (index 0 = non-word byte, 1 = word byte), same encoding as eoiMatch.
+	wbMatch [2]uint8
+
 	// nfaStates is the set of NFA states this DFA state represents.
 	// This is used during determinization to compute transitions.
 	// Pre-allocated to avoid heap allocations during search.
